@@ -34,6 +34,7 @@ DIMS = {
     "r": dict(letter="r", name="region", items=["EU", "US"], dtype="str"),
     "m": dict(letter="m", name="material", items=["steel", "wood", "glass"], dtype="str"),
     "e": dict(letter="e", name="element", items=[6, 26], dtype="int"),
+    "y": dict(letter="y", name="year", items=[1990, 2000, 2010, 2020], dtype="int"),
 }
 CLASSES = ["SimpleFlowDrivenStock", "InflowDrivenDSM", "StockDrivenDSM"]
 LIFETIMES = ["FixedLifetime", "NormalLifetime", "LogNormalLifetime", "WeibullLifetime", "FoldedNormalLifetime"]
@@ -51,7 +52,8 @@ def naming_ref(kind, a, b, ids):
 
 def gen_definition(rng, k):
     nd = rng.randint(1, 4)
-    letters = ["t"] + rng.sample(["r", "m", "e"], nd - 1)
+    tl = "y" if k % 3 == 1 else "t"          # the time dimension is not always lettered 't'
+    letters = [tl] + rng.sample(["r", "m", "e"] + (["t"] if tl == "y" and k % 2 else []), nd - 1)
     procs = ["sysenv"] + [f"proc {i}" if i % 2 else f"p{i}" for i in range(1, rng.randint(1, 4) + 1)]
     flows = []
     for i in range(rng.randint(0, 6)):
@@ -61,9 +63,9 @@ def gen_definition(rng, k):
     stocks = []
     for i in range(rng.randint(0, 3)):
         cls = rng.randrange(3)
-        d = ["t"] + rng.sample([l for l in letters if l != "t"], rng.randint(0, len(letters) - 1))
+        d = [tl] + rng.sample([l for l in letters if l != tl], rng.randint(0, len(letters) - 1))
         stocks.append(dict(name=f"stock {i}", process=(rng.choice(procs[1:]) if len(procs) > 1 and rng.random() < 0.8 else None),
-                           dims=d, time="t", cls=cls, lifetime=(rng.choice(LIFETIMES) if cls else None),
+                           dims=d, time=tl, cls=cls, lifetime=(rng.choice(LIFETIMES) if cls else None),
                            solver=rng.choice(["manual", "lapack"])))
     params = []
     for i in range(rng.randint(0, 3)):
@@ -85,18 +87,19 @@ def inject_fault(rng, d, kind):
     elif kind == "undefined process":
         d["flows"].append(dict(frm="sysenv", to="nowhere", dims=[d["letters"][0]], override=None))
     elif kind == "undefined stock process":
-        d["stocks"].append(dict(name="lost stock", process="nowhere", dims=["t"], time="t", cls=0, lifetime=None, solver="manual"))
+        d["stocks"].append(dict(name="lost stock", process="nowhere", dims=[d["letters"][0]], time=d["letters"][0], cls=0, lifetime=None, solver="manual"))
     elif kind == "missing lifetime":
-        d["stocks"].append(dict(name="dsm without lifetime", process=None, dims=["t"], time="t", cls=1, lifetime=None, solver="manual"))
+        d["stocks"].append(dict(name="dsm without lifetime", process=None, dims=[d["letters"][0]], time=d["letters"][0], cls=1, lifetime=None, solver="manual"))
     elif kind == "superfluous lifetime":
-        d["stocks"].append(dict(name="simple with lifetime", process=None, dims=["t"], time="t", cls=0, lifetime="FixedLifetime", solver="manual"))
+        d["stocks"].append(dict(name="simple with lifetime", process=None, dims=[d["letters"][0]], time=d["letters"][0], cls=0, lifetime="FixedLifetime", solver="manual"))
     elif kind == "bad solver":
-        d["stocks"].append(dict(name="odd solver", process=None, dims=["t"], time="t", cls=2, lifetime="FixedLifetime", solver="magic"))
+        d["stocks"].append(dict(name="odd solver", process=None, dims=[d["letters"][0]], time=d["letters"][0], cls=2, lifetime="FixedLifetime", solver="magic"))
     elif kind == "time not first":
-        other = [l for l in d["letters"] if l != "t"]
+        tl = d["letters"][0]
+        other = [l for l in d["letters"] if l != tl]
         if not other:
             return None
-        d["stocks"].append(dict(name="time second", process=None, dims=[other[0], "t"], time="t", cls=rng.randrange(3), lifetime=None, solver="manual"))
+        d["stocks"].append(dict(name="time second", process=None, dims=[other[0], tl], time=tl, cls=rng.randrange(3), lifetime=None, solver="manual"))
         if d["stocks"][-1]["cls"]:
             d["stocks"][-1]["lifetime"] = "FixedLifetime"
     elif kind == "sysenv not first":
@@ -191,6 +194,8 @@ def _observe_system(mfa_like):
                stocks=[dict(key=k, name=s.name, process=(s.process.name if s.process else None),
                             dims=[dict(letter=x.letter, name=x.name, items=list(x.items)) for x in s.dims], time=s.time_letter,
                             cls=type(s).__name__, lifetime=(type(s.lifetime_model).__name__ if hasattr(s, "lifetime_model") else None),
+                            lt_time=(s.lifetime_model.time_letter if hasattr(s, "lifetime_model") else None),
+                            lt_dims=([x.letter for x in s.lifetime_model.dims] if hasattr(s, "lifetime_model") else None),
                             solver=getattr(s, "solver", None),
                             zero=bool(np.all(s.stock.values == 0) and np.all(s.inflow.values == 0) and np.all(s.outflow.values == 0)))
                        for k, s in stocks.items()],
@@ -313,6 +318,8 @@ def oracle(case, obs):
             want = [dict(letter=l, name=DIMS[l]["name"], items=DIMS[l]["items"]) for l in sd["dims"]]
             if s["cls"] != CLASSES[sd["cls"]] or s["lifetime"] != sd["lifetime"] or s["process"] != sd["process"] or s["time"] != sd["time"] or s["dims"] != want or not s["zero"]:
                 return f"stock {s['name']} differs from its definition (class/lifetime/process/time/dims) {desc}"
+            if sd["cls"] and (s["lt_time"] != sd["time"] or s["lt_dims"] != sd["dims"]):
+                return f"stock {s['name']}: its lifetime model has time letter {s['lt_time']!r} / dims {s['lt_dims']} instead of {sd['time']!r} / {sd['dims']} {desc}"
             if sd["cls"] == 2 and s["solver"] != sd["solver"]:
                 return f"stock {s['name']}: solver {s['solver']!r} instead of the requested {sd['solver']!r} {desc}"
     if case["via"] != "direct":
